@@ -1,6 +1,9 @@
 #!/bin/bash
 # runs the registered quick checks of the relevant properties against every seeded change; writes seeded/<id>/check_result.txt
 cd /verif
+# works on a scratch worktree so that /repo stays untouched while the matrix runs
+export VERIF_REPO=/tmp/repo_mut
+git -C /repo worktree remove --force $VERIF_REPO 2>/dev/null; git -C /repo worktree add -q --detach $VERIF_REPO HEAD || exit 2
 declare -A EXTRA=( [C06-a]="C07" [C03-a]="C01" [C13-a]="C05 C20" [C10-a]="C06" [C20-a]="C05" [C01-a]="C09" [C02-a]="C13" )
 for d in seeded/C*-*/; do
   id=$(basename $d); prop=${id%%-*}
@@ -14,3 +17,4 @@ for d in seeded/C*-*/; do
   done
   echo "$id done: $(grep -c 'exit 1' $d/check_result.txt) check(s) raised a violation"
 done
+git -C /repo worktree remove --force $VERIF_REPO
